@@ -88,8 +88,11 @@ def contents():
     # one-line-apart siblings that differ in a single scalar rock / fluid property, for each analytical reservoir model: a value
     # remembered from the previous request (memo keyed on too little) shows only between such neighbours
     rock = [['Reservoir Heat Capacity', '1100'], ['Reservoir Density', '2700'], ['Reservoir Thermal Conductivity', '3.0']]
-    for res, plant, econ in ((gen.RES1, gen.ELEC(4), '2'), (gen.RES2, gen.HEAT, '1'), (gen.RES3, gen.ELEC(2), '1')):
-        b0 = gen.merge(res, plant, gen.ECON[econ], small, rock)
+    # (a long life and a high flow rate, so that the thermal drawdown - and with it each rock property - matters to the printed figures)
+    strong = [['Plant Lifetime', '25'], ['Time steps per year', '2'], ['Production Flow Rate per Well', '90']]
+    for res, plant, econ, more in ((gen.RES1, gen.ELEC(4), '2', [['Number of Fractures', '6']]), (gen.RES2, gen.HEAT, '1', []),
+                                   (gen.RES3, gen.ELEC(2), '1', [])):
+        b0 = gen.merge(res, plant, gen.ECON[econ], strong, more, rock)
         ok += [b0, gen.set_param(b0, 'Reservoir Heat Capacity', '800'), gen.set_param(b0, 'Reservoir Density', '3000'),
                gen.set_param(b0, 'Reservoir Thermal Conductivity', '2.2')]
     bad = [
